@@ -285,11 +285,36 @@ class AssocDict:
         ents = E.fix_len(self.entries)
         c = ents.clen()
         if c is None:
-            raise Unsupported('lookup in a dict with a symbolic number of symbolic keys')
+            return self.get_symbolic(E, ents, key, strict, default)
         for k in range(c - 1, -1, -1):
             kv = ents.at(z3.IntVal(k))
             if E.branch(value_eq_bool(kv.items[0], key)):
                 return kv.items[1]
+        if strict:
+            _raise(E, KeyError, 'key')
+        return default
+
+    def get_symbolic(self, E, ents, key, strict, default):
+        """lookup in an association list of ANY length: dict semantics are `the last entry with an equal key, if any`.
+        Existence of (found, m) with
+            found  => 0 <= m < n  and  key_m == key  and  forall q in (m, n): key_q != key
+            !found => forall q in [0, n): key_q != key
+        holds for every list and key; the two universally quantified parts are instantiated at the index terms the unit
+        registered in E.ghost['assoc_inst'] (weaker facts = sound).  Units that define their own lookup function register a
+        hook in E.ghost['assoc_on_hit'] to get their axioms instantiated at m."""
+        n = ents.n
+        m = E.fresh_int('assoc_hit')
+        found = E.fresh_bool('assoc_found')
+        key_at = lambda q: value_eq_bool(ents.at(q).items[0], key)
+        inst = list(E.ghost.get('assoc_inst', []))
+        E.fact(z3.Implies(found, z3.And(m >= 0, m < n, key_at(m), *[z3.Implies(z3.And(I(q) > m, I(q) < n), z3.Not(key_at(I(q)))) for q in inst])))
+        E.fact(z3.Implies(z3.Not(found), z3.And(*[z3.Implies(z3.And(I(q) >= 0, I(q) < n), z3.Not(key_at(I(q)))) for q in inst])))
+        for hook in E.ghost.get('assoc_on_hit', []):
+            for f in hook(m, found, key):
+                E.fact(f)
+        E.ghost['assoc_last_lookup'] = (found, m)
+        if E.branch(found):
+            return ents.at(m).items[1]
         if strict:
             _raise(E, KeyError, 'key')
         return default
